@@ -63,7 +63,7 @@ theorem parseRow_ok_iff (o : Oracles) (cfg : Cfg) (row : List Str) (t : Txn) :
         describe cfg.spec row = .ok (desc, caps) ∧
         (cell row cfg.spec.dateCol).isEmpty = false ∧ desc.isEmpty = false ∧ (cell row cfg.spec.amountCol).isEmpty = false ∧
         dateToken cfg.spec (cell row cfg.spec.dateCol) = some tok ∧
-        o.strptime cfg.spec.dateFormat tok = some dt ∧
+        o.strptime cfg.spec.dateFormat tok = .ok dt ∧
         rawAmount o cfg row = some q ∧
         (cfg.skipNonFinite = true → q.isFinite = true) ∧
         (applySign cfg.spec q).isZero = false ∧
